@@ -21,7 +21,5 @@ pub fn __assure_newline_string(s: &String) -> (r: String) ensures r@ == assure_n
 pub fn __repeat_char(c: char, n: usize) -> (r: String) ensures r@ == Seq::new(n as nat, |i: int| c) { unimplemented!() }
 #[verifier::external_body]
 pub fn __string_trim_start(s: &String) -> (r: String) ensures r@ == str_trim_start(s@) { unimplemented!() }
-/// generators/markdown.rs::max_backtick_size (longest run of backticks at the start of a line of the generated text, at least 2)
-pub uninterp spec fn max_ticks(s: Seq<char>) -> nat;
 #[verifier::external_body]
 pub fn __push_str(s: &mut String, t: &str) ensures final(s)@ == old(s)@ + t@ { s.push_str(t) }
